@@ -279,6 +279,39 @@ def main():
     if not obligations and not undecided:
         undecided.append("no obligations generated for %s" % pid)
 
+    # thorough tier: seeded-fault regression — every committed fault of this property's groups is applied to a scratch copy
+    # and this property's quick check must still give the expected exit code (1 unless the fault file says otherwise).
+    # A fault that is no longer detected means the check lost sensitivity: exit 2 (never an alarm about /repo).
+    selftest = {"run": 0, "as_expected": 0, "unexpected": []}
+    if tier == "thorough" and not os.environ.get("VERIF_NO_SELFTEST") and not failures and not undecided:
+        import mutate as mutlib
+        jobs = []
+        for gname in spec["groups"]:
+            fp = os.path.join(ROOT, "faults", gname + ".json")
+            if not os.path.exists(fp):
+                continue
+            for f in json.load(open(fp)):
+                if pid in f.get("props", []):
+                    jobs.append((gname, f))
+        with cf.ThreadPoolExecutor(max_workers=3) as ex:
+            futs = {ex.submit(mutlib.run_fault, f, [pid]): (g, f) for g, f in jobs}
+            for fu in cf.as_completed(futs):
+                g, f = futs[fu]
+                exp = f.get("expect", {}).get(pid, 1) if isinstance(f.get("expect"), dict) else f.get("expect", 1)
+                try:
+                    res = fu.result()
+                    got = res[0][1]
+                except Exception as e:  # noqa: BLE001
+                    got = "error %r" % (e,)
+                selftest["run"] += 1
+                ok = (got == exp) or (isinstance(exp, list) and got in exp)
+                if ok:
+                    selftest["as_expected"] += 1
+                else:
+                    selftest["unexpected"].append("%s/%s: expected exit %s, got %s" % (g, f["id"], exp, got))
+        if selftest["unexpected"]:
+            undecided.append("seeded-fault regression: %s" % "; ".join(selftest["unexpected"])[:1500])
+
     # known findings
     violations = []
     known_hits = []
@@ -392,6 +425,7 @@ def main():
             "bounded_checks": bounded_checks,
             "kani": kani_out,
             "assumed_contract_audit": audit_out,
+            "seeded_fault_regression": selftest,
             "undecided": undecided,
             "known_findings_hit": [k.get("what") for k, _ in known_hits],
             "unstable": unstable,
